@@ -6,6 +6,8 @@ CONSTANTS
   PidOps = {"$p1", "$p2", "9999"}
   Sigs = {"TERM", "INT", "STOP", "CONT", "0"}
   JobsOpts = {"", "-l", "-p"}
+  KillLNums = {0, 2, 9, 386, 399}
+  FgSlots = {2, 3}
   StartWith = "none"
 VIEW view
 INVARIANT TableConsistent
